@@ -189,6 +189,16 @@ def run_search(stats, name, strategy, n, seed, tier):
         # the last raising call is the shrunk example: keep only it
         del stats.violations[before:]
         stats.violations.append((last["case"], last["detail"], last["fid"]))
+    except hypothesis.errors.Flaky as err:
+        # the case failed once and passed when Hypothesis ran it again in this process.  For a check whose subject is
+        # state carried from one assembly to the next (C17) that is what a leak looks like - the first run changed the
+        # process - and the first observation stands (the replay file reproduces it in a fresh process).  Anywhere
+        # else it is a defect of the harness.
+        if "case" in last and getattr(stats.mod, "FLAKY_IS_VIOLATION", False):
+            del stats.violations[before:]
+            stats.violations.append((last["case"], last["detail"] + " [not repeatable within one process]", last["fid"]))
+        else:
+            raise HarnessError("hypothesis failed in search {}: {!r}".format(name, err))
     except hypothesis.errors.HypothesisException as err:
         raise HarnessError("hypothesis failed in search {}: {!r}".format(name, err))
     except Exception:
